@@ -148,7 +148,9 @@ Fixpoint parse_calls (l : list tok) (fuel : nat) : option (list pcall) :=
       end
   end.
 
-(* case:  COMPOSE <trace|logs|metrics> | c fm hm | .. | o f h .. *)
+(* case:  COMPOSE <trace|logs|metrics> | c fm hm | .. | o f h ft ht ..
+   ft / ht = the same call with a finite timeout that the FIRST child call already exceeds (the children are slow during such a
+   call): the providers spread the caller's timeout over the children, and a used-up budget must not skip the remaining ones *)
 Record ccase := mk_ccase { cc_kind : ckind; cc_children : list child; cc_ops : list cop }.
 Definition parse_kind (t : tok) : option ckind :=
   if is_tag "trace" t then Some KTrace else if is_tag "logs" t then Some KLogs else if is_tag "metrics" t then Some KMetrics else None.
@@ -159,7 +161,7 @@ Fixpoint parse_secs (secs : list (list tok)) (cs : list child) (ops : list cop) 
       if is_tag "c" t then parse_secs secs' (cs ++ [mk_child (Z.to_N a) (Z.to_N b)]) ops else None
   | (t :: rest) :: secs' =>
       if is_tag "o" t
-      then parse_secs secs' cs (ops ++ flat_map (fun x => if is_tag "f" x then [OFlush] else if is_tag "h" x then [OShut] else []) rest)
+      then parse_secs secs' cs (ops ++ flat_map (fun x => if is_tag "f" x || is_tag "ft" x then [OFlush] else if is_tag "h" x || is_tag "ht" x then [OShut] else []) rest)
       else None
   | [] :: secs' => parse_secs secs' cs ops
   end.
